@@ -133,7 +133,7 @@ PROPS = {
     "C19": dict(
         components=["Demux", "MuxForces", "Horseshoe", "CollocationPoints"],
         extra_suites=[suites.aero_pipeline_suite],
-        assumptions=["order-independence of the solved forces is tied by the oracle (permutation theorem not proved); mphys wrapper groups are compared by the oracle when mphys is importable"],
+        assumptions=["order-independence is proved for the assembled system (matrix, rhs, solutions, panel forces); the coefficient functionals downstream and the splitting of a surface into abutting surfaces are examined by the oracle", "mphys wrapper groups are compared by the oracle when mphys is importable"],
     ),
 }
 from .specs import SPECS as _SPECS
